@@ -31,6 +31,33 @@ def atomic_updates(prog, r, owner, field, extra_body=None):
     return out
 
 
+def size_inventory(ctx, r, rule):
+    """where the size counter is written, with what: one +1 (creator) and one decrement per way an object leaves"""
+    prog = ctx.prog
+    # size inventory
+    sz = []
+    for b in managed_bodies(prog):
+        ban = prog.an(b)
+        for bb, i, s in r.field_writes(b, r.SLOTS, r.SIZE):
+            if b.blocks[bb].cleanup:
+                continue
+            sz.append((b, bb, s, classify_write(ban, s)))
+    got = sorted({(b.name, op, 'len' if 'len' in v else v) for b, bb, s, (op, v) in sz})
+    # several sites in one function are fine as long as no path executes two of them
+    for b in {x[0].path: x[0] for x in sz}.values():
+        ban = prog.an(b)
+        mine = [bb for b2, bb, s, w in sz if b2.path == b.path and w[0] == '-=']
+        twice = [(x, y) for x in mine for y in mine if x != y and y in ban.reach_after(x, ('normal',))] + [x for x in mine if in_cycle(ban, x) and b.path not in (r.RESIZE.path, r.CLOSE.path)]
+        ctx.ob(rule, 'no path decrements size twice', not twice, ctx.where(b), str(twice), construct='size-dec-twice:' + b.name)
+    cres = [prog.bodies[p].name for p in r.GETTER if manager_calls(prog.bodies[p], MANAGER_CREATE)]
+    exp = sorted([(cres[0], '+=', '1_usize')] if cres else []) + []
+    exp = sorted(exp + [(r.UNREADY_DROP.name, '-=', '1_usize'), (r.RESIZE.name, '-=', '1_usize'), (r.CLOSE.name, '-=', '1_usize'), (r.RETAIN.name, '-=', 'len')] +
+                 [(h.name, '-=', '1_usize') for h in r.RETURN + r.TAKE if h.path not in (r.OBJ_DROP.path, r.OBJ_TAKE.path)])
+    ctx.ob(rule, 'size: one +1 (creator) and one decrement per way an object leaves', got == exp, '', 'found %s, expected %s' % (got, exp),
+           construct='size-inventory', sites=[str(t_) for t_ in got])
+    return sz
+
+
 def run(ctx):
     r = roles(ctx)
     prog = ctx.prog
@@ -129,27 +156,7 @@ def run(ctx):
             ctx.ob('R11.2', 'the end of an Object decrements users on every path', okp, ctx.where(b, blk.term.line),
                    'users -= 1 is conditional: a returned / taken object can stay counted as a user forever' if not okp else '', construct='users-dec-conditional:' + b.name)
     users_guard_drop_unconditional(ctx, r, 'R11.2')
-    # size inventory
-    sz = []
-    for b in managed_bodies(prog):
-        ban = prog.an(b)
-        for bb, i, s in r.field_writes(b, r.SLOTS, r.SIZE):
-            if b.blocks[bb].cleanup:
-                continue
-            sz.append((b, bb, s, classify_write(ban, s)))
-    got = sorted({(b.name, op, 'len' if 'len' in v else v) for b, bb, s, (op, v) in sz})
-    # several sites in one function are fine as long as no path executes two of them
-    for b in {x[0].path: x[0] for x in sz}.values():
-        ban = prog.an(b)
-        mine = [bb for b2, bb, s, w in sz if b2.path == b.path and w[0] == '-=']
-        twice = [(x, y) for x in mine for y in mine if x != y and y in ban.reach_after(x, ('normal',))] + [x for x in mine if in_cycle(ban, x) and b.path not in (r.RESIZE.path, r.CLOSE.path)]
-        ctx.ob('R11.2', 'no path decrements size twice', not twice, ctx.where(b), str(twice), construct='size-dec-twice:' + b.name)
-    cres = [prog.bodies[p].name for p in r.GETTER if manager_calls(prog.bodies[p], MANAGER_CREATE)]
-    exp = sorted([(cres[0], '+=', '1_usize')] if cres else []) + []
-    exp = sorted(exp + [(r.UNREADY_DROP.name, '-=', '1_usize'), (r.RESIZE.name, '-=', '1_usize'), (r.CLOSE.name, '-=', '1_usize'), (r.RETAIN.name, '-=', 'len')] +
-                 [(h.name, '-=', '1_usize') for h in r.RETURN + r.TAKE if h.path not in (r.OBJ_DROP.path, r.OBJ_TAKE.path)])
-    ctx.ob('R11.2', 'size: one +1 (creator) and one decrement per way an object leaves', got == exp, '', 'found %s, expected %s' % (got, exp),
-           construct='size-inventory', sites=[str(t_) for t_ in got])
+    sz = size_inventory(ctx, r, 'R11.2')
     # every decrement is dominated by evidence of holding a counted object
     for b, bb, s, (op, v) in sz:
         if op != '-=':
@@ -181,6 +188,10 @@ def run(ctx):
     # close() may zero the limit (a closed pool reports max_size 0 whatever a concurrent resize did)
     cz = all(classify_write(prog.an(r.CLOSE), s) == ('=', '0_usize') for bb, i, s in r.field_writes(r.CLOSE, r.SLOTS, r.MAX))
     ctx.ob('R11.2', 'max_size written only by resize (and zeroed by close)', set(mw) <= {r.RESIZE.name, r.CLOSE.name} and r.RESIZE.name in mw and cz, '', str(mw), construct='max-writers')
+
+    # ---- R11.5 "size exceeds max_size only as the residue of a shrink": the helpers withhold the permit exactly then ----
+    from .rules_C07 import surplus_guard
+    surplus_guard(ctx, r, 'R11.5', [x for x in r.RETURN + r.TAKE if x.path not in (r.OBJ_DROP.path, r.OBJ_TAKE.path)])
 
     # ---- R11.9 size and users return to their resting relation on every path (effect ledger) --------------------
     from .ledger_rules import ledger_obligations
